@@ -25,6 +25,9 @@ def run(ctx):
         ctx.exhaustive = True  # the table (all lengths <= 4, bounds -6..6 + end, k <= 2) is replayed completely per template
     n_hist, n_steps = (1200, 8) if ctx.quick else (24000, 12)
     specs = editcheck.history_specs(ctx, n_hist, n_steps)
+    # (F) systematic deletions of every node x field of the corpus (single-valued fields, tails / ends of list fields)
+    editcheck.run_fieldsweep(ctx, variants=(0, 8) if ctx.quick else tuple(range(10)), per_class=2 if ctx.quick else 6,
+                             props=PROPS)
     res = editcheck.generate(ctx, specs)
     val = editcheck.validate_all(ctx, res)
     editcheck.collect(ctx, val, PROPS)
